@@ -29,11 +29,22 @@ type c05PN struct {
 	Out  bool   `json:"out"`  // the includer has a variable of that name (must be shadowed inside, restored after)
 	Loop bool   `json:"loop"` // the include sits inside a v-for
 	Cond string `json:"cond"` // "" | if (the include tag carries a true v-if) | else (it is the v-else of a false v-if)
+	// LoopSame: the loop variable has the prop's name and is what the prop is bound to
+	// (<div v-for="item in items"><card :item="item">) - the usual way to hand an item to a component
+	LoopSame bool `json:"loop_same,omitempty"`
 }
 
-func c05NPNames() int { return len(c05PNames) * len(c05PForms) * 8 * 3 }
+func c05NPNames() int { return len(c05PNames)*len(c05PForms)*8*3 + len(c05PNames)*2*2 }
 
 func c05GenPNames(i int) c05Case {
+	if main := len(c05PNames) * len(c05PForms) * 8 * 3; i >= main {
+		i -= main
+		pn := c05PN{Name: c05PNames[i%len(c05PNames)], Loop: true, LoopSame: true}
+		i /= len(c05PNames)
+		pn.Form = []string{"bound", "short-bound"}[i%2]
+		pn.Out = (i/2)%2 == 1
+		return c05Case{Part: "propnames", PN: &pn}
+	}
 	pn := c05PN{Name: c05PNames[i%len(c05PNames)]}
 	i /= len(c05PNames)
 	pn.Form = c05PForms[i%len(c05PForms)]
@@ -53,6 +64,9 @@ func c05ExecPNames(c c05Case, o *core.Obs) {
 		attr = fmt.Sprintf(`%s="P{{ src }}"`, pn.Name)
 	default:
 		attr = fmt.Sprintf(`:%s="srcv"`, pn.Name)
+		if pn.LoopSame {
+			attr = fmt.Sprintf(`:%[1]s="%[1]s"`, pn.Name)
+		}
 	}
 	cond := map[string]string{"": "", "if": `v-if="yes" `, "else": `v-else `}[pn.Cond]
 	inc := fmt.Sprintf(`<template %sinclude="components/Probe.vuego" %s other="OV"></template>`, cond, attr)
@@ -62,7 +76,9 @@ func c05ExecPNames(c c05Case, o *core.Obs) {
 	if pn.Cond == "else" {
 		inc = `<em v-if="no">never</em>` + inc
 	}
-	if pn.Loop {
+	if pn.LoopSame {
+		inc = `<div v-for="` + pn.Name + ` in pvs">` + inc + `</div>`
+	} else if pn.Loop {
 		inc = `<div v-for="lp in two">` + inc + `</div>`
 	}
 	page := `<section data-m="before">[{{ ` + pn.Name + ` }}]</section>` + inc + `<section data-m="after">[{{ ` + pn.Name + ` }}]</section>`
@@ -71,7 +87,7 @@ func c05ExecPNames(c c05Case, o *core.Obs) {
 		req = fmt.Sprintf(` :required="%s"`, pn.Name)
 	}
 	comp := fmt.Sprintf(`<template%s><i data-m="in">[{{ %s }}|{{ other }}]</i></template>`, req, pn.Name)
-	data := map[string]any{"src": "V", "srcv": "PV", "two": []any{1, 2}, "yes": true, "no": false}
+	data := map[string]any{"src": "V", "srcv": "PV", "two": []any{1, 2}, "pvs": []any{"PV", "PV"}, "yes": true, "no": false}
 	wantOut := ""
 	if pn.Out && pn.Name != "layout" { // a page-level `layout` variable selects a layout file (C07), it is not an ordinary variable
 		data[pn.Name] = "OUTER"
@@ -97,6 +113,9 @@ func c05ExecPNames(c c05Case, o *core.Obs) {
 		}
 		if pn.Cond != "" {
 			cls += "+v-" + pn.Cond + "-on-the-include-tag"
+		}
+		if pn.LoopSame {
+			cls += "+loop-variable-of-the-same-name"
 		}
 		return fmt.Sprintf("propnames/%s/%s/%s", what, cls, pn.Form)
 	}
